@@ -529,6 +529,7 @@ type FuncSpec struct {
 	Ensures    []Clause
 	Checks     []Clause // checked at every return like ensures, may mention locals, not exported to callers
 	Effects    []Clause // ghost effects ($Name := expr) applied at call sites; Name holds the target
+	Havocs     []string // ghosts the function may change in a way only its ensures clauses describe
 	CallPres   []Clause // obligations at call sites inside this function; Name holds the callee fragment
 	OnlyCalls  []OnlyCall // external-effect frame: callees matching Frag must be one of Allowed
 	Loops      map[int]*LoopSpec
@@ -543,7 +544,6 @@ type FuncSpec struct {
 	Params     []string // extern: parameter names for spec use (recv first)
 	Results    []string // names for results (extern)
 	Assumes    []Clause // explicit assumptions inside (listed)
-	Havocs     []string // locals havocked at rundefers etc.
 	File       string
 	Line       int
 	NoBody     bool
@@ -632,7 +632,7 @@ var clauseKeywords = map[string]bool{
 	"property": true, "requires": true, "ensures": true, "nopanic": true, "overflow": true,
 	"untrusted": true, "loop": true, "modifies": true, "assume": true, "trusted": true,
 	"fresh": true, "params": true, "results": true, "let": true, "assert": true, "var": true,
-	"dropped": true, "param": true, "end": true, "checks": true, "effect": true, "callpre": true, "noframe": true, "lock": true, "permtable": true, "require": true, "closed": true, "only": true,
+	"dropped": true, "param": true, "end": true, "checks": true, "effect": true, "callpre": true, "noframe": true, "lock": true, "permtable": true, "require": true, "closed": true, "only": true, "havoc": true,
 }
 
 // OnlyCall is one `only` clause.
@@ -766,6 +766,17 @@ func (c *Contracts) parseContractFile(path, pkgPath string) error {
 			}
 			cl.Name = strings.TrimSpace(rest[:k])
 			cur.CallPres = append(cur.CallPres, cl)
+		case "havoc":
+			// havoc $A $B ...   (the function may change these ghosts; its ensures clauses say how)
+			if cur == nil {
+				return fail(l.n, "havoc outside a function contract")
+			}
+			for _, f := range strings.Fields(strings.ReplaceAll(rest, ",", " ")) {
+				if !strings.HasPrefix(f, "$") {
+					return fail(l.n, "havoc takes ghost names")
+				}
+				cur.Havocs = append(cur.Havocs, f)
+			}
 		case "only":
 			// only <callee name fragment>: M1 M2 ...   (frame on external effects: every call in this
 			// function whose callee name contains the fragment must be one of the listed functions/methods)
